@@ -9,7 +9,7 @@ From Coq Require String.
 Import String.StringSyntax.
 From Pcfg Require Import ProbAlg F64 Expand ExpandProofs EndToEnd Next NextSpec NextProofs QProb QSum.
 From Pcfg Require Str Detect Counters SegCorr PipelineTrain.
-From Pcfg Require Import Pipeline PipelineSpec PipelineCorr PipelineDisk PipelineProofs PipelineF64 PipelineQ PipelineCount PipelineCountQ PipelineInst.
+From Pcfg Require Import Pipeline PipelineSpec PipelineCorr PipelineDisk PipelineProofs PipelineF64 PipelineF64Bound PipelineQ PipelineCount PipelineCountQ PipelineInst.
 Import ListNotations.
 
 (* storing a word lower-cased with its U/L mask loses nothing on the property's
@@ -96,6 +96,24 @@ Theorem C03_reproduced :
       In pw (printed RF c_env pop L).
 Proof.
   intros io o raw tr pw Hio Hl. exact (C03_reproduced_F64 c_env c_env_ok io (c_io_env_ok io Hio Hl) o raw tr pw).
+Qed.
+
+(* binary64 WITHOUT the computable check: trained with coverage 1.0 (no Markov
+   mass) on a list of fewer than 2^53 characters in total, every count and
+   every partial sum is an integer below 2^53, hence exact in binary64, and
+   f64_arith_ok holds (PipelineF64Bound.f64_arith_ok_cov1) *)
+Theorem C03_reproduced_coverage1 :
+  forall (io : fileio) (o : options F64) (raw : list Str.str) (tr : trained F64) (pw : Str.str),
+  io_ok io -> (forall c, f_encb io c = true -> f_encb io (Detect.lower1 SegCorr.c_lower c) = true) ->
+  train c_env o raw = Some tr -> In pw raw -> accepted_pw c_env pw = true -> supported_pw c_env o raw pw = true ->
+  case_ok_pw c_env pw -> Forall (fun p => forallb (f_encb io) p = true) raw ->
+  (o_cov o : PrimFloat.float) = 1%float -> chars_bound raw ->
+  exists L, pipeline_F64 c_env io o raw = Some L /\
+    forall pop, pop_ok_okb pop ->
+      (exists it, In it (session pop L) /\ exists out k, guesses_of RF c_env L it = Some (out, k) /\ In pw out) /\
+      In pw (printed RF c_env pop L).
+Proof.
+  intros io o raw tr pw Hio Hl. exact (C03_reproduced_F64_cov1 c_env c_env_ok io (c_io_env_ok io Hio Hl) o raw tr pw).
 Qed.
 
 (* the same pipeline over exact rationals (ideal disk stage): no arithmetic
@@ -211,6 +229,7 @@ Qed.
 Close Scope string_scope.
 
 Print Assumptions C03_reproduced.
+Print Assumptions C03_reproduced_coverage1.
 Print Assumptions C03_reproduced_exact.
 Print Assumptions C03_sum_one_Q.
 Print Assumptions C03_sum_one_guesses.
